@@ -9,9 +9,35 @@ sys.path.insert(0, os.path.dirname(os.path.dirname(os.path.abspath(__file__))))
 from qsim import core, entries  # noqa: E402
 
 
+def _batch(lib, items):
+    """Each item evaluated in its own fork of this still pristine interpreter: no item can
+    see state left behind by another (cheap stand-in for one interpreter per entry)."""
+    out = []
+    for it in items:
+        r, w = os.pipe()
+        pid = os.fork()
+        if pid == 0:
+            try:
+                os.close(r)
+                res = entries.evaluate(lib, it["entry"], it["kind"])
+                with os.fdopen(w, "w") as fd:
+                    fd.write(json.dumps(res))
+            finally:
+                os._exit(0)
+        os.close(w)
+        with os.fdopen(r) as fd:
+            data = fd.read()
+        os.waitpid(pid, 0)
+        out.append(json.loads(data) if data else {"exc": "oracle fork died"})
+    return out
+
+
 def main():
     req = json.load(sys.stdin)
     lib = core.use_repo()
+    if "batch" in req:
+        sys.stdout.write(json.dumps(_batch(lib, req["batch"])))
+        return
     out = entries.evaluate(lib, req["entry"], req["kind"])
     out["hashseed"] = os.environ.get("PYTHONHASHSEED")
     sys.stdout.write(json.dumps(out))
